@@ -4,7 +4,8 @@
 The C20 harness drives the real RoomLockService, the real process_acquired_room (through its verif
 hook) and the real cleanup, but it PLAYS two pieces of src/synchronisation/peer_inbound_service.rs
 itself: the lock branch of the select! loop of LocalPeerService::start (take the oldest grant, call
-process_acquired_room) and what follows the loop (read acquired_lock, cleanup, drop the receiver).
+process_acquired_room) and what follows the loop (read acquired_lock, cleanup, close and drain the
+lock channel).
 This translator re-reads those pieces (and the facts about the service the model and the harness'
 quiescence protocol rely on) from /repo's working tree on every run and emits them as constants;
 proofs/C20P.v states what the model assumes about them (`conn_facts_as_modelled`), so an edit of
